@@ -28,6 +28,25 @@ func main() {
 	if len(os.Args) > 1 {
 		area = os.Args[1]
 	}
+	if area == "coldstart" {
+		// the smallest useful sample, for being started thousands of times: whatever a process decides once
+		// at start-up (map iteration order in an initialiser, a random seed, an address) is drawn again
+		bad := 0
+		fail := func(f string, a ...interface{}) {
+			if bad < 5 {
+				fmt.Printf("probe-violation (one of many identical cold starts) "+f+"\n", a...)
+			}
+			bad++
+		}
+		n := laws.Pages([]laws.Mapper{{Name: "lorom", B2P: lorom.BusAddressToPak, P2B: lorom.PakAddressToBus}, {Name: "hirom", B2P: hirom.BusAddressToPak, P2B: hirom.PakAddressToBus},
+			{Name: "exhirom", B2P: exhirom.BusAddressToPak, P2B: exhirom.PakAddressToBus}, {Name: "sa1rom", B2P: sa1rom.BusAddressToPak, P2B: sa1rom.PakAddressToBus}}, fail)
+		n += coldColour(fail)
+		if bad > 0 {
+			fmt.Printf("probe area=coldstart evaluated=%d violations=%d\n", n, bad)
+			os.Exit(1)
+		}
+		return
+	}
 	if area != "mappers" {
 		bad := 0
 		fail := func(f string, a ...interface{}) {
